@@ -441,7 +441,7 @@ def infinite_mask_probe(ctx):
 
         def forward(self, y, b):
             return body(y, self.W, self.mask, b)
-    for n, bck in ((4, {}), (6, {"method": "bicgstab"})):
+    for n, bck in ((4, {}), (6, {"method": "bicgstab", "rtol": 1e-12, "atol": 1e-14})):
         for kind in ("EditableModule", "nn.Module"):
             W0 = torch.randn(n, n, dtype=DT, generator=g)
             mask = torch.triu(torch.full((n, n), float("-inf"), dtype=DT), diagonal=1)
